@@ -42,10 +42,15 @@ fi
 CHK=""
 case " $IDS " in *" C03 "*) (cd "$W/harness" && CARGO_TARGET_DIR="$W/ht" cargo build --profile checked --quiet >>"$W/build.log" 2>&1) && CHK="$W/ht/checked/ppp-verif" ;; esac
 CAUGHT=""; MISSED=""
+# the change's own property check runs at the full quick budget; the other 19 at a fraction of it (MUT_OTHERS_SCALE,
+# default 0.1: the cross table then shows what one tenth of the random stages already reports; exhaustive stages are
+# not scaled). Set MUT_OTHERS_SCALE=1 for the full budget everywhere.
+OWN=$(basename "$D" | cut -c1-3)
 for ID in $IDS; do
-  out=$(VERIF_DIR="$W/vd" timeout 1500 "$W/ht/release/ppp-verif" "$ID" --tier "${MUT_TIER:-quick}" --no-evidence 2>/dev/null); rc=$?
+  SCALE=1; [ "$ID" != "$OWN" ] && SCALE="${MUT_OTHERS_SCALE:-0.1}"
+  out=$(VERIF_SCALE="$SCALE" VERIF_DIR="$W/vd" timeout 1500 "$W/ht/release/ppp-verif" "$ID" --tier "${MUT_TIER:-quick}" --no-evidence 2>/dev/null); rc=$?
   if [ "$ID" = C03 ] && [ -n "$CHK" ] && [ $rc = 0 ]; then
-    out=$(VERIF_DIR="$W/vd" timeout 1500 "$CHK" "$ID" --tier "${MUT_TIER:-quick}" --no-evidence 2>/dev/null); rc=$?
+    out=$(VERIF_SCALE="$SCALE" VERIF_DIR="$W/vd" timeout 1500 "$CHK" "$ID" --tier "${MUT_TIER:-quick}" --no-evidence 2>/dev/null); rc=$?
   fi
   case $rc in
     0) MISSED="$MISSED $ID" ;;
